@@ -465,14 +465,16 @@ def compiled_intrinsics(chk, rng):
     from .rendering import render
     from .ode_checks import reset_species_state
     # (KROME declares every @var as real*8: `nd` is 3.0 and `1/nd` a real quotient, whatever the literal looks like)
-    lines = ["@var:xa = abs(Tgas/3d2 - 2.5d0)", "@var:nd = 3", "@var:nhalf = 7", "@format:idx,R,R,P,rate",
+    lines = ["@var:xa = abs(Tgas/3d2 - 2.5d0)", "@var:nd = 3", "@var:nhalf = 7", "@var:sigma_t = 6.6524587d-25", "@var:fine = 1.2345678912d0",
+             "@format:idx,R,R,P,rate",
              "1,H,H,H2,1.0d-10*abs(Tgas/1d2 - 3.7d0)",
              "2,H,E,H+,3d-11*sqrt(xa) + 1d-12*exp(-1d0*xa)",
              "3,H2,E,H,1d-12*log10(Tgas)*abs(-0.4d0)",
              "4,H+,E,H,1d-13*log(Tgas)/abs(0.25d0 - Tgas*1d-3)",
              "5,H2,H,H,2d-10*abs(xa - 0.75d0)",
              "6,H,H,H2,1d-10*dsqrt(Tgas)*dabs(xa - 0.75d0)/dlog10(Tgas) + 1d-12*dlog(Tgas)",
-             "7,H2,H,H,1d-10*Tgas**(1/nd) + nhalf/2*6d-10"]
+             "7,H2,H,H,1d-10*Tgas**(1/nd) + nhalf/2*6d-10",
+             "8,H,E,H+,sigma_t*1d15*Tgas*fine"]          # every digit of a numeric @var counts
     frates = [l.split(",")[-1] for l in lines if l[0].isdigit()]
     temps = [rng.uniform(20.0, 240.0), rng.uniform(260.0, 700.0), rng.uniform(800.0, 2000.0), 315.0]
     for backend in ("dense", "rosenbrock4"):
@@ -509,7 +511,7 @@ def compiled_intrinsics(chk, rng):
             got = [float(x) for x in row.split("|")[0].split()]
             fenv = {"Tgas": t, "Te": t * 8.617343e-5, "T32": t / 300.0, "invT": 1.0 / t}
             fenv["xa"] = float(feval(fparse("abs(Tgas/3d2 - 2.5d0)")[0], fenv))
-            fenv["nd"], fenv["nhalf"] = 3.0, 7.0
+            fenv["nd"], fenv["nhalf"], fenv["sigma_t"], fenv["fine"] = 3.0, 7.0, 6.6524587e-25, 1.2345678912
             want = [float(feval(fparse(fx)[0], fenv)) for fx in frates]
             chk.count(("krome-compiled", backend, t), nontrivial=True)
             chk.hist["krome-compiled"] += 1
